@@ -1,12 +1,24 @@
 """C11 - the on-disk dataset cache never serves wrong data."""
 ID = "C11"
-LEVEL = "exploration"
-LEVEL_TEXT = 'Bounded fault experiments on the real from_config: truncations at a dense stride, single-byte corruptions, empty/missing files, foreign configurations under the requested name, and an interruption at every low-level write of save; each time the request must regenerate or raise, never serve other data, and leave a loadable file.'
-LEVEL_NOTE = 'Byte-level fault enumeration is a different technique; it stands in here for the adversarial-read contract proof planned in DESIGN.md.'
-TECHNIQUE = "bounded stand-in of the contract-based verifier: run-time checking of the real code against an independent executable statement over an enumerated scope (no function of this property is in the verified subset yet)"
-CONTRACT_MODULES = []
-PROVE = []
-ASSUMPTIONS = []
+LEVEL = "proof"
+LEVEL_TEXT = (
+    "PROVED (unbounded, z3): the decision logic of GPTDataset.from_config against an ADVERSARIAL cache file. Every collaborator (dataset class, configuration, paths, ZANJ handle, "
+    "datasets) is an opaque object whose methods are unknown functions; `cls.read` may return ANY dataset object (any stored configuration, any mazes) or raise ANY Exception - which "
+    "covers a missing, empty, truncated or corrupted file whatever the damage - and `exists()` is a free boolean. For all 146 paths through the real function: (a) whatever is returned "
+    "satisfies `not cfg.diff(result.cfg)` or exactly the one tolerated collect_generation_meta difference, unless the caller asked for a warning instead of an error - a mismatching cached "
+    "file raises ValueError, it is never served silently; (b) nothing `read` raises propagates (the only exception that leaves is the documented ValueError), and when nothing was read or "
+    "downloaded the result IS cls.generate(cfg)._apply_filters_from_config(); (c) the returned dataset itself is saved exactly when saving is enabled and it did not come from the file, so a "
+    "loadable file is left behind; nothing is saved before the configuration check (no save on the ValueError paths); a dataset read from the file is served as it is. "
+    "NOT proved (other family / library internals): that every damaged file actually makes zanj.read raise or return an object whose configuration then fails (a) - decided by the bounded "
+    "fault experiments on the real from_config: truncations at a dense stride, single-byte corruptions, empty/garbage/directory files, a foreign configuration saved under the requested name, "
+    "mismatches in single fields, filtered requests."
+)
+LEVEL_NOTE = ("Trusted: pyvc encoding; opaque methods other than read/download are assumed not to raise inside from_config (an exception of generate/save would propagate unchanged - not part of the "
+              "property); cfg.diff ignores exactly the maze count (muutils, compare=False field); byte-level fault enumeration of the writer is a different technique (bounded conformance runs only).")
+TECHNIQUE = "contract-based deductive verification of from_config's decision logic over opaque collaborators with an adversarial read (path-sensitive call events, z3) + bounded fault experiments on real cache files"
+CONTRACT_MODULES = ["contracts.cache"]
+PROVE = [("maze_dataset/dataset/dataset.py", "GPTDataset.from_config")]
+ASSUMPTIONS = ["verbose=False (the print_log branch only formats messages)"]
 EXPLANATION = "see DESIGN.md C11"
 
 
